@@ -34,6 +34,8 @@ C_FUNCS = [
     # row getters of the tree sequence: accepted iff 0 <= index < number of rows
     ("trees.c", "tsk_treeseq_get_node"), ("trees.c", "tsk_treeseq_get_edge"), ("trees.c", "tsk_treeseq_get_migration"),
     ("trees.c", "tsk_treeseq_get_mutation"), ("trees.c", "tsk_treeseq_get_population"), ("trees.c", "tsk_treeseq_get_provenance"),
+    ("trees.c", "tsk_tree_has_sample_counts"), ("trees.c", "tsk_treeseq_is_sample"), ("trees.c", "tsk_tree_reset_tracked_samples"),
+    ("trees.c", "tsk_tree_set_tracked_samples"),
     ("trees.c", "tsk_tree_seek"),
     ("trees.c", "tsk_tree_seek_index"),
     ("tables.c", "tsk_table_collection_check_tree_integrity"),
